@@ -12,3 +12,5 @@ import TrionModel.Props.C15
 import TrionModel.Props.C13
 import TrionModel.Props.C14
 import TrionModel.Props.C20
+import TrionModel.Props.C04
+import TrionModel.Props.C19
